@@ -127,6 +127,12 @@ def shifted_field(x, y, z, *, B=0.0, cx=0.0, cy=0.0):
     return np.stack([-B * y / 2 + cx, B * x / 2 + cy, np.zeros_like(x)], axis=1)
 
 
+def ramped_shifted_field(x, y, z, *, t, B=0.0, cx=0.0, cy=0.0, rate=4.0):
+    """the field is ramped up in time, the constant vector (the gauge shift chi = c.r) is not: a static gauge function"""
+    s = min(1.0, 0.2 + rate * t)
+    return np.stack([-s * B * y / 2 + cx, s * B * x / 2 + cy, np.zeros_like(x)], axis=1)
+
+
 def run_level(ctx, stop_first=False):
     first = None
     cfgs = [
@@ -135,7 +141,11 @@ def run_level(ctx, stop_first=False):
         dict(dev="bar", cur={"source": 4.0, "drain": -4.0}, B=0.4, opts=dict(dt_init=2e-3, dt_max=2e-2, adaptive=True, adaptive_window=2)),
     ]
     cfgs.append(dict(dev="ring", cur=None, B=0.5, lam=0.4, opts=dict(dt_init=5e-3, adaptive=False, include_screening=True, screening_tolerance=1e-3)))
+    # link variables refreshed in place during the run (time-dependent field / screening), terminals not pinned
+    cfgs.append(dict(dev="bar", cur={"source": 2.0, "drain": -2.0}, B=0.5, td=True, opts=dict(dt_init=5e-3, adaptive=False, terminal_psi=None)))
     if not ctx.quick:
+        cfgs.append(dict(dev="bar3", cur={"source": 3.0, "drain": -1.0, "top": -2.0}, B=0.5, td=True, opts=dict(dt_init=5e-3, adaptive=False)))
+        cfgs.append(dict(dev="bar", cur={"source": 2.0, "drain": -2.0}, B=0.4, lam=0.5, opts=dict(dt_init=5e-3, adaptive=False, terminal_psi=None, include_screening=True, screening_tolerance=1e-3)))
         cfgs.append(dict(dev="cross4", cur={"source": 5.0, "drain": -2.0, "top": -3.5, "bottom": 0.5}, B=0.3, opts=dict(dt_init=5e-3, adaptive=False)))
         cfgs.append(dict(dev="bar_hole", cur={"source": 2.0, "drain": -2.0}, B=0.7, opts=dict(dt_init=5e-3, adaptive=False, include_screening=True, screening_tolerance=1e-3)))
     shifts = [(0.3, 0.0), (0.0, -0.5), (1.1, 0.7)]
@@ -147,7 +157,10 @@ def run_level(ctx, stop_first=False):
             if os.path.exists(out):
                 os.remove(out)
             opts = runs.options(solve_time=0.12 if not cfg["opts"].get("adaptive") else 0.2, save_every=4, output_file=out, progress_interval=10**9, **cfg["opts"])
-            A = tdgl.Parameter(shifted_field, B=cfg["B"], cx=cx, cy=cy)
+            if cfg.get("td"):
+                A = tdgl.Parameter(ramped_shifted_field, B=cfg["B"], cx=cx, cy=cy, time_dependent=True)
+            else:
+                A = tdgl.Parameter(shifted_field, B=cfg["B"], cx=cx, cy=cy)
             # gauge-related initial data: A -> A + c is the gauge function chi(r) = c.r, so the run in the
             # shifted gauge starts from psi_0 e^{i chi} (the property compares psi "up to the gauge phase" at every
             # recorded step, step 0 included); chi in dimensionless units = A_scale * c . (r / xi)
@@ -160,7 +173,7 @@ def run_level(ctx, stop_first=False):
             results.append(runs.parse_h5(sol.path)[0])
         base = results[0]
         for (cx, cy), other in zip(shifts, results[1:]):
-            tag = dict(device=cfg["dev"], bias=cfg["cur"] is not None, shift=[cx, cy])
+            tag = dict(device=cfg["dev"], bias=cfg["cur"] is not None, shift=[cx, cy], time_dependent_field=bool(cfg.get("td")), terminal_psi=repr(cfg["opts"].get("terminal_psi", 0.0)))
             if [f["step"] for f in base] != [f["step"] for f in other]:
                 ctx.fail("gauge-run-labels", "runs in two gauges record different steps", tag)
                 first = first or dict(key="gauge-run-labels", what="labels differ", **tag)
@@ -174,7 +187,7 @@ def run_level(ctx, stop_first=False):
                     Jn=float(np.abs(da["normal_current"] - db["normal_current"]).max()),
                     mu=float(np.abs((da["mu"] - da["mu"].mean()) - (db["mu"] - db["mu"].mean())).max()),
                 )
-                ctx.case((cfg["dev"], cx, cy, fa["step"]), nontrivial=fa["step"] > 0)
+                ctx.case((cfg["dev"], bool(cfg.get("td")), repr(cfg["opts"].get("terminal_psi", 0.0)), bool(cfg["opts"].get("include_screening")), cx, cy, fa["step"]), nontrivial=fa["step"] > 0)
                 ctx.count("frame_pairs")
                 w = max(errs.values())
                 # a screened step ends when an error drops below a tolerance, so a rounding-level difference can in
